@@ -95,6 +95,7 @@ class VLoop(base_events.BaseEventLoop):
         self.max_targets = max_targets
         self.busy_choices = busy
         self.busy_timers = busy_timers  # timer targets offered at busy boundaries ('slow callbacks')
+        self._busy_timer_activity = -1
         self.max_iters = max_iters
         self.spin_collapse = spin_collapse
         self.envwaits: list[tuple[str, object, bool]] = []  # (label, future, stallable)
@@ -252,7 +253,13 @@ class VLoop(base_events.BaseEventLoop):
                     if n >= self.spin_collapse:
                         self.collapsed += 1
                         return
-                tts = self._busy_timer_targets() if self.busy_timers else []
+                tts = []
+                if self.busy_timers and self.activity != self._busy_timer_activity:
+                    # offered only at the first busy boundary after a harness-visible step (not at every poll iteration)
+                    self._busy_timer_activity = self.activity
+                    tts = self._busy_timer_targets()
+                if not ews and not tts:
+                    return
                 c = self.chooser.choose('busy', 1 + len(ews) + len(tts), None)
                 if c == 0:
                     return
